@@ -1,12 +1,14 @@
-(** C08 — the redb-backed store behaves like a plain ordered map under reconciliation. PARTIAL.
-    Proved: the bounds behind every database range scan are exact (namespace scan = all rows of
-    the namespace; author-prefix scan used by prefix removal = same author and key prefix), the
-    effect of a message on the store is the same function for every store instance, and the
-    ordered list instance holds the same set as the abstract store after every put.
-    Not yet proved: [fs_get_range = filter range_contains] for the wrap-around shape and the
-    transcript equality as a theorem; both are checked by the correspondence runs on every
-    generated range and session. *)
-From ID Require Import Base.Bytes Model.Entry Model.Tables Model.FsStore Model.Bounds Model.Ranger Model.Put Proofs.BoundsFacts Proofs.RangerFacts Proofs.FsPutFacts.
+(** C08 — the redb-backed store behaves like a plain ordered map under reconciliation.
+    Proved, over the table-level model of the store (one records table shared by all documents
+    of the store, scanned through computed bounds): every range scan — plain, wrap-around, whole
+    ring, with range ends anywhere, also inside other documents — returns exactly the ordered-map
+    range of the document's own rows ([C08_range_scan_exact]; defect D14, repaired, was here);
+    the insert is the ordered map's insert (same outcome, same removed count, same content); and
+    hence processing ANY message has the same reply, the same announced entries and the same
+    content afterwards as over the plain ordered list ([C08_message_processing_same]).
+    That the real redb store and the in-memory store follow this table-level model is what the
+    correspondence runs check (sessions and direct probes, on stores holding several documents). *)
+From ID Require Import Base.Bytes Model.Entry Model.Tables Model.FsStore Model.Bounds Model.Ranger Model.Put Proofs.BoundsFacts Proofs.RangerFacts Proofs.FsPutFacts Proofs.ConvergeFacts Proofs.RangeFacts Proofs.RefineFacts.
 
 Theorem C08_namespace_scan_exact : forall ns n a k, n <= MAX256 ->
   in_bounds rid_cmp (fst (rb_namespace ns)) (snd (rb_namespace ns)) (n, a, k) = (n =? ns).
@@ -47,3 +49,37 @@ Proof. exact fs_put_refines. Qed.
 
 Print Assumptions C08_parent_lookups_exact.
 Print Assumptions C08_table_put_refines_put.
+
+(** every range scan of the table-level store is the ordered-map range of the document's rows *)
+Theorem C08_range_scan_exact : forall ns T x y, wf_records T ->
+  fs_get_range ns T x y = rng (fs_all ns T) x y.
+Proof. exact get_range_exact. Qed.
+
+(** the insert, at the level of the document's ordered list *)
+Theorem C08_insert_is_ordered_map_insert : forall EH ns T e, wf_records T -> wf_entry e -> e_ns e = ns ->
+  fs_all ns (fst (fs_put prefix_succ EH T e)) = fst (om_put (fs_all ns T) e) /\
+  snd (fs_put prefix_succ EH T e) = snd (om_put (fs_all ns T) e) /\
+  wf_records (fst (fs_put prefix_succ EH T e)).
+Proof. exact fs_put_is_om_put. Qed.
+
+(** any message: same reply, same announced entries, same content afterwards *)
+Theorem C08_message_processing_same : forall EH ns mss k status_of v T m,
+  wf_records T -> (forall e st, v e st = true -> ok_entry ns e) ->
+  let '(T', r1, i1) := process_message (fs_ops prefix_succ EH ns) mss k status_of (fun _ e st => v e st) T m in
+  let '(S', r2, i2) := process_message om_ops mss k status_of (fun _ e st => v e st) (fs_all ns T) m in
+  wf_records T' /\ S' = fs_all ns T' /\ r1 = r2 /\ i1 = i2.
+Proof. exact table_store_is_ordered_map. Qed.
+
+(** sensitivity (D14): the unclamped scan of the pinned tree returns another document's rows *)
+Example C08_unclamped_range_leaks_refuted :
+  let other := mkE 9 2 [115] 5 1 7 in
+  let T := fs_entry_put (fs_entry_put empty_tables (mkE 1 2 [97] 5 1 7)) other in
+  fs_get_range_gen false 1 T (9, 0, []) (9, 3, []) = [other] /\
+  fs_get_range 1 T (9, 0, []) (9, 3, []) = [] /\
+  rng (fs_all 1 T) (9, 0, []) (9, 3, []) = [].
+Proof. exact unclamped_range_leaks_refuted. Qed.
+
+Print Assumptions C08_range_scan_exact.
+Print Assumptions C08_insert_is_ordered_map_insert.
+Print Assumptions C08_message_processing_same.
+Print Assumptions C08_unclamped_range_leaks_refuted.
